@@ -376,10 +376,23 @@ class Hugr(Mapping[Node, NodeData], Generic[OpVarCov]):
             sub_offset = next(
                 i for i, inp in enumerate(self.linked_ports(src)) if inp == dst
             )
-            self._links.delete_left(_SubPort(src, sub_offset))
         except StopIteration:
             return
-        # TODO make sure sub-offset is handled correctly
+        src_sub = _SubPort(src, sub_offset)
+        dst_sub = self._links.fwd[src_sub]
+        self._links.delete_left(src_sub)
+        # Sub-offsets of a port must stay contiguous: shift the later links of
+        # both ports down to close the gap left by the deleted link.
+        nxt = src_sub.next_sub_offset()
+        while (other_in := self._links.get_right(nxt)) is not None:
+            self._links.delete_left(nxt)
+            self._links.insert_left(src_sub, other_in)
+            src_sub, nxt = nxt, nxt.next_sub_offset()
+        nxt_in = dst_sub.next_sub_offset()
+        while (other_out := self._links.get_left(nxt_in)) is not None:
+            self._links.delete_right(nxt_in)
+            self._links.insert_right(dst_sub, other_out)
+            dst_sub, nxt_in = nxt_in, nxt_in.next_sub_offset()
 
     def root_op(self) -> OpVarCov:
         """The operation of the root node.
